@@ -351,7 +351,10 @@ fn in_situ(ctx: &Ctx, r: &mut Rng, out: &mut CaseOut) {
                 match crate::props::c04::is_instance_of_pub(a, &guidance, &*l.program) {
                     Ok(true) => out.count("in-situ:answer-is-instance-of-aggregated-guidance"),
                     Ok(false) => {
-                        out.violation(None, format!("aggregated answer `{}` does not generalise the enumerated answer {:?}", sol.display(ChalkIr), a), J::obj().set("program", text.as_str()).set("goal", gtext.as_str()).set("solution", format!("{}", sol.display(ChalkIr))));
+                        // F20: guidance that repeats one of its own variables is declared final too early
+                        let shown = format!("{}", sol.display(ChalkIr));
+                        let sig = if crate::common::nonlinear_definite(&shown) { Some("slg:may-invalidate-nonlinear-guidance") } else { None };
+                        out.violation(sig, format!("aggregated answer `{}` does not generalise the enumerated answer {:?}", sol.display(ChalkIr), a), J::obj().set("program", text.as_str()).set("goal", gtext.as_str()).set("solution", format!("{}", sol.display(ChalkIr))));
                         return;
                     }
                     Err(_) => out.inconclusive("instance check failed"),
